@@ -127,22 +127,41 @@ pub use kb::Cfg;
 pub struct PairAir {
     pub variant: u8,
 }
-impl<T> BaseAir<T> for PairAir {
+impl<T: Field> BaseAir<T> for PairAir {
     fn width(&self) -> usize {
         3
     }
+    fn main_next_row_columns(&self) -> Vec<usize> {
+        // variant 2 is row-local: the prover does not open its trace on the next row
+        if self.variant == 2 { vec![] } else { vec![2] }
+    }
+    fn num_periodic_columns(&self) -> usize {
+        usize::from(self.variant == 3)
+    }
+    fn periodic_columns(&self) -> Vec<Vec<T>> {
+        if self.variant == 3 { vec![vec![T::from_u64(3), T::from_u64(5)]] } else { vec![] }
+    }
 }
-impl<AB: AirBuilder> Air<AB> for PairAir {
+impl<AB: AirBuilder> Air<AB> for PairAir
+where
+    AB::F: Field,
+{
     fn eval(&self, builder: &mut AB) {
         let main = builder.main();
-        let (l, n) = (main.current_slice(), main.next_slice());
+        let l = main.current_slice();
         let (a, b, c) = (l[0], l[1], l[2]);
+        if self.variant == 2 {
+            builder.assert_eq(a.into() * b.into(), c);
+            return;
+        }
+        let n = main.next_slice();
         let nc = n[2];
+        let per: Option<AB::Expr> = (self.variant == 3).then(|| builder.periodic_values()[0].into());
         let mut t = builder.when_transition();
-        if self.variant == 0 {
-            t.assert_eq(a.into() * b.into() + c.into(), nc);
-        } else {
-            t.assert_eq(a.into() * c.into() + b.into(), nc);
+        match self.variant {
+            0 => t.assert_eq(a.into() * b.into() + c.into(), nc),
+            3 => t.assert_eq(a.into() * b.into() + c.into() + per.unwrap(), nc),
+            _ => t.assert_eq(a.into() * c.into() + b.into(), nc),
         }
     }
 }
@@ -152,11 +171,18 @@ impl PairAir {
         let mut rng = crate::core::prng::Rng::new(seed, "pair-air", self.variant as u64);
         let mut v = Vec::with_capacity(3 * n);
         let mut c = F::from_u64(rng.below(1000));
-        for _ in 0..n {
+        for r in 0..n {
             let a = F::from_u64(rng.below(F::ORDER_U64));
             let b = F::from_u64(rng.below(F::ORDER_U64));
+            if self.variant == 2 {
+                c = a * b;
+            }
             v.extend([a, b, c]);
-            c = if self.variant == 0 { a * b + c } else { a * c + b };
+            c = match self.variant {
+                0 => a * b + c,
+                3 => a * b + c + F::from_u64(if r % 2 == 0 { 3 } else { 5 }),
+                _ => a * c + b,
+            };
         }
         RowMajorMatrix::new(v, 3)
     }
